@@ -55,6 +55,8 @@ def families(ctx, rnd, thorough, which):
     scs = []
     if "rw" in which:
         scs += [logix_rw.session(rnd, i) for i in range(600 if thorough else 56)]
+    if "bits" in which:
+        scs += logix_rw.bits_sessions(rnd, 120 if thorough else 14)
     if "long" in which:
         for i in range(40 if thorough else 6):
             scs.append(logix_rw.session(rnd, 1000 + i, prefix="long", n_calls=3, max_reqs=rnd.choice([40, 120, 300]), n_tags=30))
